@@ -257,8 +257,8 @@ theorem w32_lt (x : Nat) : w32 x < 4294967296 := by unfold w32; omega
 enumerated ones. -/
 theorem fn2_names : Fn2.all.map Fn2.name = modelled2 := rfl
 
-theorem call2_by_name (fixedRecv : Bool) (h : Host) (fds : Fds) (m : Mem) (f : Fn2) (a : List Nat) :
-    call2 fixedRecv h fds m f.name a = call2e fixedRecv h fds m f a := by cases f <;> rfl
+theorem call2_by_name (fixedRecv fixedRead : Bool) (h : Host) (fds : Fds) (m : Mem) (f : Fn2) (a : List Nat) :
+    call2 fixedRecv fixedRead h fds m f.name a = call2e fixedRecv fixedRead h fds m f a := by cases f <;> rfl
 
 theorem designated_by_name (h : Host) (m : Mem) (f : Fn2) (a : List Nat) :
     designated h m f.name a = designated2e m f a := by
@@ -267,9 +267,9 @@ theorem designated_by_name (h : Host) (m : Mem) (f : Fn2) (a : List Nat) :
 /-- All of `Safe` at once, for both variants of sock_recv (the F61 defect is about WHERE it writes, not about
 host safety): no alternative is a host panic, every write lies inside the memory, an alternative that does not
 answer errno 0 leaves the descriptor table untouched, and the predicted host allocation is ≤ 512 bytes. -/
-theorem wasi_call_safe (fixedRecv : Bool) (h : Host) (hh : HostNamesOk h) (fds : Fds) (m : Mem) (hb : Bytes m)
+theorem wasi_call_safe (fixedRecv fixedRead : Bool) (h : Host) (hh : HostNamesOk h) (fds : Fds) (m : Mem) (hb : Bytes m)
     (hs : m.size < 9223372036854775808) (f : Fn2) (a : List Nat) (rs : List Res)
-    (hc : call2e fixedRecv h fds m f a = some rs) : ∀ r ∈ rs, Safe m r := by
+    (hc : call2e fixedRecv fixedRead h fds m f a = some rs) : ∀ r ∈ rs, Safe m r := by
   cases f
   case fd_readdir => fs2_case hc (fdReaddir_safe h hh m fds _ _ _ _ _ (w32_lt _) (w32_lt _) (w32_lt _) hs)
   case path_open => fs2_case hc (pathOpen_safe m fds _ _ _ _ _ (w32_lt _) hs)
@@ -291,7 +291,7 @@ theorem wasi_call_safe (fixedRecv : Bool) (h : Host) (hh : HostNamesOk h) (fds :
   case path_symlink => fs2_case hc (pathSymlink_safe m fds _ _ _ _ _)
   case path_link => fs2_case hc (pathOp2_safe m fds _ _ _ _ _ _)
   case sock_accept => fs2_case hc (sockAccept_safe m fds _ _ (w32_lt _) hs)
-  case sock_recv => fs2_case hc (sockRecv_safe _ m hb fds _ _ _ _ _ _ (w32_lt _) (w32_lt _) hs)
+  case sock_recv => fs2_case hc (sockRecv_safe _ _ m hb fds _ _ _ _ _ _ (w32_lt _) (w32_lt _) hs)
   case sock_send => fs2_case hc (sockSend_safe m fds _ _ _ _ _ (w32_lt _) hs)
   case sock_shutdown => fs2_case hc (sockShutdown_safe m fds _ _)
   case proc_raise => fs2_case hc (allSafe_rE m enosys (by decide))
@@ -308,7 +308,7 @@ regions the signature designates (`designated`, the table the harness monitor us
 generated case).  `m.size ≤ 2^32` is the wasm32 limit. -/
 theorem wasi_writes_within_designated (h : Host) (hh : HostNamesOk h) (fds : Fds) (m : Mem)
     (hm : m.size ≤ 4294967296) (f : Fn2) (a : List Nat) (rs : List Res)
-    (hc : call2e true h fds m f a = some rs) :
+    (hc : call2e true true h fds m f a = some rs) :
     ∀ r ∈ rs, ∀ w ∈ r.writes, Wr.within w (designated2e m f (a.map w32)) := by
   show Within rs _
   cases f
@@ -344,55 +344,55 @@ theorem modelled2_enumerated (fn : String) (hfn : fn ∈ modelled2) : ∃ f : Fn
   obtain ⟨f, _, hf⟩ := List.mem_map.1 hfn
   exact ⟨f, hf⟩
 
-theorem call_by_name (fixed fixedRecv : Bool) (h : Host) (fds : Fds) (m : Mem) (f : Fn2) (a : List Nat) :
-    call fixed fixedRecv h fds m f.name a = call2e fixedRecv h fds m f a := by
-  have h1 : call1 fixed h fds m f.name a = none := by cases f <;> simp [call1, Fn2.name, Fn1.all, Fn1.name]
+theorem call_by_name (fixed fixedRecv fixedRead : Bool) (h : Host) (fds : Fds) (m : Mem) (f : Fn2) (a : List Nat) :
+    call fixed fixedRecv fixedRead h fds m f.name a = call2e fixedRecv fixedRead h fds m f a := by
+  have h1 : call1 fixed fixedRead h fds m f.name a = none := by cases f <;> simp [call1, Fn2.name, Fn1.all, Fn1.name]
   unfold call
   rw [h1, call2_by_name]
 
 /-- no_host_index_oob for every function of `modelled2`: no alternative is a Go runtime error. -/
-theorem wasi_no_host_panic (fixed fixedRecv : Bool) (h : Host) (hh : HostNamesOk h) (fds : Fds) (m : Mem)
+theorem wasi_no_host_panic (fixed fixedRecv fixedRead : Bool) (h : Host) (hh : HostNamesOk h) (fds : Fds) (m : Mem)
     (hb : Bytes m) (hs : m.size < 9223372036854775808) (fn : String) (hfn : fn ∈ modelled2) (a : List Nat)
-    (rs : List Res) (hc : call fixed fixedRecv h fds m fn a = some rs) : ∀ r ∈ rs, r.err ≠ Err.panic := by
+    (rs : List Res) (hc : call fixed fixedRecv fixedRead h fds m fn a = some rs) : ∀ r ∈ rs, r.err ≠ Err.panic := by
   obtain ⟨f, rfl⟩ := modelled2_enumerated fn hfn
   rw [call_by_name] at hc
-  exact fun r hr => (wasi_call_safe fixedRecv h hh fds m hb hs f a rs hc r hr).noPanic
+  exact fun r hr => (wasi_call_safe fixedRecv fixedRead h hh fds m hb hs f a rs hc r hr).noPanic
 
 /-- writes never extend beyond the memory. -/
-theorem wasi_writes_in_memory (fixed fixedRecv : Bool) (h : Host) (hh : HostNamesOk h) (fds : Fds) (m : Mem)
+theorem wasi_writes_in_memory (fixed fixedRecv fixedRead : Bool) (h : Host) (hh : HostNamesOk h) (fds : Fds) (m : Mem)
     (hb : Bytes m) (hs : m.size < 9223372036854775808) (fn : String) (hfn : fn ∈ modelled2) (a : List Nat)
-    (rs : List Res) (hc : call fixed fixedRecv h fds m fn a = some rs) :
+    (rs : List Res) (hc : call fixed fixedRecv fixedRead h fds m fn a = some rs) :
     ∀ r ∈ rs, ∀ w ∈ r.writes, w.len = 0 ∨ w.off + w.len ≤ m.size := by
   obtain ⟨f, rfl⟩ := modelled2_enumerated fn hfn
   rw [call_by_name] at hc
-  exact fun r hr => (wasi_call_safe fixedRecv h hh fds m hb hs f a rs hc r hr).inMem
+  exact fun r hr => (wasi_call_safe fixedRecv fixedRead h hh fds m hb hs f a rs hc r hr).inMem
 
 /-- a call that does not answer errno 0 (an errno, or "any"/"nz" of the host) leaves the descriptor table as it
 was; no exception among these 24 functions (path_open that fails with EFAULT inserts and closes the new
 descriptor again: the entries are the same). -/
-theorem wasi_failed_call_keeps_table (fixed fixedRecv : Bool) (h : Host) (hh : HostNamesOk h) (fds : Fds) (m : Mem)
+theorem wasi_failed_call_keeps_table (fixed fixedRecv fixedRead : Bool) (h : Host) (hh : HostNamesOk h) (fds : Fds) (m : Mem)
     (hb : Bytes m) (hs : m.size < 9223372036854775808) (fn : String) (hfn : fn ∈ modelled2) (a : List Nat)
-    (rs : List Res) (hc : call fixed fixedRecv h fds m fn a = some rs) :
+    (rs : List Res) (hc : call fixed fixedRecv fixedRead h fds m fn a = some rs) :
     ∀ r ∈ rs, r.err ≠ Err.errno 0 → r.fds = none := by
   obtain ⟨f, rfl⟩ := modelled2_enumerated fn hfn
   rw [call_by_name] at hc
-  exact fun r hr => (wasi_call_safe fixedRecv h hh fds m hb hs f a rs hc r hr).table
+  exact fun r hr => (wasi_call_safe fixedRecv fixedRead h hh fds m hb hs f a rs hc r hr).table
 
 /-- the host allocation the model predicts is bounded by a linear function of the guest memory size (here even a
 constant: one growth step of the descriptor table, 64 slots of 8 bytes). -/
-theorem wasi_alloc_bounded (fixed fixedRecv : Bool) (h : Host) (hh : HostNamesOk h) (fds : Fds) (m : Mem)
+theorem wasi_alloc_bounded (fixed fixedRecv fixedRead : Bool) (h : Host) (hh : HostNamesOk h) (fds : Fds) (m : Mem)
     (hb : Bytes m) (hs : m.size < 9223372036854775808) (fn : String) (hfn : fn ∈ modelled2) (a : List Nat)
-    (rs : List Res) (hc : call fixed fixedRecv h fds m fn a = some rs) : ∀ r ∈ rs, r.alloc ≤ 512 + 0 * m.size := by
+    (rs : List Res) (hc : call fixed fixedRecv fixedRead h fds m fn a = some rs) : ∀ r ∈ rs, r.alloc ≤ 512 + 0 * m.size := by
   obtain ⟨f, rfl⟩ := modelled2_enumerated fn hfn
   rw [call_by_name] at hc
   intro r hr
-  have := (wasi_call_safe fixedRecv h hh fds m hb hs f a rs hc r hr).alloc
+  have := (wasi_call_safe fixedRecv fixedRead h hh fds m hb hs f a rs hc r hr).alloc
   omega
 
 /-- writes_within_designated by name (repaired sock_recv). -/
 theorem wasi_writes_within_designated_by_name (fixed : Bool) (h : Host) (hh : HostNamesOk h) (fds : Fds) (m : Mem)
     (hm : m.size ≤ 4294967296) (fn : String) (hfn : fn ∈ modelled2) (a : List Nat) (rs : List Res)
-    (hc : call fixed true h fds m fn a = some rs) :
+    (hc : call fixed true true h fds m fn a = some rs) :
     ∀ r ∈ rs, ∀ w ∈ r.writes, Wr.within w (designated h m fn (a.map w32)) := by
   obtain ⟨f, rfl⟩ := modelled2_enumerated fn hfn
   rw [call_by_name] at hc
@@ -410,12 +410,12 @@ def iovPage : Mem := { size := 65536, data := #[0, 1, 0, 0, 16, 0, 0, 0] }
 that writes the 16 bytes at 256 named by the bytes at ri_data — outside the designated regions, which for
 ri_data_len = 0 are only the two result cells. -/
 theorem sockRecv_peek_witness :
-    ∃ r ∈ sockRecv false connFds iovPage 4 0 0 1 16640 16704, ∃ w ∈ r.writes,
+    ∃ r ∈ sockRecv false false connFds iovPage 4 0 0 1 16640 16704, ∃ w ∈ r.writes,
       ¬ Wr.within w (designated2e iovPage Fn2.sock_recv [4, 0, 0, 1, 16640, 16704]) := by
-  have hmap : (sockRecv false connFds iovPage 4 0 0 1 16640 16704).map (·.writes) =
+  have hmap : (sockRecv false false connFds iovPage 4 0 0 1 16640 16704).map (·.writes) =
       [[], [Wr.region 256 16, Wr.region 16640 4, Wr.bytes 16704 [0, 0]]] := by decide
   have hin : [Wr.region 256 16, Wr.region 16640 4, Wr.bytes 16704 [0, 0]] ∈
-      (sockRecv false connFds iovPage 4 0 0 1 16640 16704).map (·.writes) := by rw [hmap]; simp
+      (sockRecv false false connFds iovPage 4 0 0 1 16640 16704).map (·.writes) := by rw [hmap]; simp
   obtain ⟨r, hr, hrw⟩ := List.mem_map.1 hin
   refine ⟨r, hr, Wr.region 256 16, by rw [hrw]; simp, ?_⟩
   intro hw
@@ -425,8 +425,33 @@ theorem sockRecv_peek_witness :
   · simp at h1
   · simp at h1
 
+/-- a memory whose iovec array at 0 has two entries: the buffer of the first (8, 8) IS the second entry, which
+names (3000, 4) when the call starts -/
+def aliasPage : Mem := { size := 65536, data := #[8, 0, 0, 0, 8, 0, 0, 0, 184, 11, 0, 0, 4, 0, 0, 0] }
+/-- a host whose stdin delivers the bytes of the iovec (4096, 4) followed by "ABCD" -/
+def aliasHost : Host := { stdin := [0, 16, 0, 0, 4, 0, 0, 0, 65, 66, 67, 68] }
+
+/-- F62: on the pinned tree `readv` reads every iovec from the live memory: the 8 bytes read into the first buffer
+replace the second entry, and the next 4 bytes go to 4096 — a place that the iovec array named at call time
+(`designated`: (8,8), (3000,4), the result cell) does not contain.  The data, not the arguments, decide. -/
+theorem readv_alias_witness :
+    Wr.bytes 4096 [65, 66, 67, 68] ∈ (fdRead false aliasHost stdio aliasPage 0 0 2 16576).writes ∧
+    ¬ Wr.within (Wr.bytes 4096 [65, 66, 67, 68]) (designated1e aliasHost aliasPage Fn1.fd_read [0, 0, 2, 16576]) := by
+  refine ⟨by decide, ?_⟩
+  intro hw
+  obtain ⟨r, hr, h1, h2⟩ := hw 4096 (by decide) (by decide)
+  have hd : designated1e aliasHost aliasPage Fn1.fd_read [0, 0, 2, 16576] = [(8, 8), (3000, 4), (16576, 4)] := by
+    decide
+  rw [hd] at hr
+  simp only [List.mem_cons, List.not_mem_nil, or_false] at hr
+  rcases hr with rfl | rfl | rfl <;> simp at h1 h2 <;> omega
+
+/-- the repaired `readv` (iovec array copied at the start) fills the two buffers named at call time (test, sample) -/
+example : (fdRead true aliasHost stdio aliasPage 0 0 2 16576).writes =
+    [Wr.bytes 8 [0, 16, 0, 0, 4, 0, 0, 0], Wr.bytes 3000 [65, 66, 67, 68], Wr.bytes 16576 [12, 0, 0, 0]] := by decide
+
 /-- the repaired variant answers ro_datalen = 0 and writes nothing else (test, sample) -/
-example : (sockRecv true connFds iovPage 4 0 0 1 16640 16704).map (·.writes) =
+example : (sockRecv true true connFds iovPage 4 0 0 1 16640 16704).map (·.writes) =
     [[Wr.bytes 16640 [0, 0, 0, 0], Wr.bytes 16704 [0, 0]]] := by decide
 
 /-- the hypotheses are met by ordinary states: a memory of bytes, a host with short names -/
@@ -445,12 +470,12 @@ def dirFds : Fds := (insertAt (insertAt (insertAt stdio Kind.pre 3).1 Kind.file 
 
 /-- non-vacuity of the dispatcher: fd_readdir of the sub-directory (".", "..", "g") into a 256-byte buffer writes
 76 bytes and bufused = 76; path_open has a successful alternative that hands out descriptor 6 (tests, samples) -/
-example : (call true true { preEntries := [1, 5, 4], dirEntries := [1] } dirFds zeroPage "fd_readdir" [5, 8192, 256, 0, 16384]).map
+example : (call true true true { preEntries := [1, 5, 4], dirEntries := [1] } dirFds zeroPage "fd_readdir" [5, 8192, 256, 0, 16384]).map
       (fun rs => rs.map (fun r => (r.err, r.writes)))
     = some [(Err.errno 0, [Wr.region 8192 76, Wr.bytes 16384 [76, 0, 0, 0]])] := by decide
 /-- with the names known the dirents themselves are predicted: d_next = 1, 2, 3, d_namlen, d_type = directory,
 directory, regular file, and the names ".", "..", "g" (test, sample) -/
-example : (call true true { dirEntries := [1], dirNames := [([103], 4)] } dirFds zeroPage "fd_readdir" [5, 8192, 256, 0, 16384]).map
+example : (call true true true { dirEntries := [1], dirNames := [([103], 4)] } dirFds zeroPage "fd_readdir" [5, 8192, 256, 0, 16384]).map
       (fun rs => rs.map (fun r => (r.err, r.writes.length, r.writes.getLast?)))
     = some [(Err.errno 0, 11, some (Wr.bytes 16384 [76, 0, 0, 0]))] := by decide
 example : ((pathOpen dirFds zeroPage 3 2048 0 0 16384).map (fun r => (r.err, r.writes))) =
@@ -465,11 +490,11 @@ about WHERE a call writes are proved for the 24 functions of the second batch on
 are checked on the real code by the harness (exact byte diff against the model; designated regions). -/
 
 theorem call1_by_name (fixed : Bool) (h : Host) (fds : Fds) (m : Mem) (f : Fn1) (a : List Nat) :
-    call1 fixed h fds m f.name a = call1e fixed h fds m f a := by
+    call1 fixed fixedRead h fds m f.name a = call1e fixed fixedRead h fds m f a := by
   cases f <;> simp [call1, Fn1.all, Fn1.name]
 
-theorem call2_of_fn1 (fixedRecv : Bool) (h : Host) (fds : Fds) (m : Mem) (f : Fn1) (a : List Nat) :
-    call2 fixedRecv h fds m f.name a = none := by
+theorem call2_of_fn1 (fixedRecv fixedRead : Bool) (h : Host) (fds : Fds) (m : Mem) (f : Fn1) (a : List Nat) :
+    call2 fixedRecv fixedRead h fds m f.name a = none := by
   cases f <;> simp [call2, Fn2.all, Fn2.name, Fn1.name]
 
 theorem modelled1_enumerated (fn : String) (hfn : fn ∈ modelled1) : ∃ f : Fn1, f.name = fn := by
@@ -477,8 +502,8 @@ theorem modelled1_enumerated (fn : String) (hfn : fn ∈ modelled1) : ∃ f : Fn
   obtain ⟨f, _, hf⟩ := List.mem_map.1 hfn
   exact ⟨f, hf⟩
 
-theorem call_fn1 (fixed fixedRecv : Bool) (h : Host) (fds : Fds) (m : Mem) (f : Fn1) (a : List Nat) (rs : List Res)
-    (hc : call fixed fixedRecv h fds m f.name a = some rs) : ∃ r, call1e fixed h fds m f a = some r ∧ rs = [r] := by
+theorem call_fn1 (fixed fixedRecv fixedRead : Bool) (h : Host) (fds : Fds) (m : Mem) (f : Fn1) (a : List Nat) (rs : List Res)
+    (hc : call fixed fixedRecv fixedRead h fds m f.name a = some rs) : ∃ r, call1e fixed fixedRead h fds m f a = some r ∧ rs = [r] := by
   unfold call at hc
   rw [call1_by_name] at hc
   split at hc
@@ -489,11 +514,11 @@ theorem call_fn1 (fixed fixedRecv : Bool) (h : Host) (fds : Fds) (m : Mem) (f : 
 
 /-- no host panic, first batch (repaired poll_oneoff) -/
 theorem call1e_no_host_panic (h : Host) (ha : HostArgsOk h) (fds : Fds) (m : Mem) (f : Fn1) (a : List Nat) (r : Res)
-    (hc : call1e true h fds m f a = some r) : r.err ≠ Err.panic := by
+    (hc : call1e true fixedRead h fds m f a = some r) : r.err ≠ Err.panic := by
   cases f
   case poll_oneoff => fs1_case hc (poll_no_host_index_oob _ _ _ _ _ _)
-  case fd_read => fs1_case hc (fdRead_ne_panic _ _ _ _ _ _ _)
-  case fd_pread => fs1_case hc (fdPread_ne_panic _ _ _ _ _ _)
+  case fd_read => fs1_case hc (fdRead_ne_panic _ _ _ _ _ _ _ _)
+  case fd_pread => fs1_case hc (fdPread_ne_panic _ _ _ _ _ _ _)
   case fd_write => fs1_case hc (fdWrite_ne_panic _ _ _ _ _ _)
   case fd_pwrite => fs1_case hc (fdPwrite_ne_panic _ _ _ _ _ _)
   case args_get => fs1_case hc (writeOffsetsAndValues_ne_panic _ _ _ _ ha.1 ha.2.1)
@@ -516,46 +541,46 @@ theorem call1e_no_host_panic (h : Host) (ha : HostArgsOk h) (fds : Fds) (m : Mem
 
 /-- **no_host_index_oob, all 46 functions**: whatever the arguments, the memory image and the descriptor table, no
 alternative of any call is a Go runtime error in the host (repaired poll_oneoff, either variant of sock_recv). -/
-theorem all_no_host_panic (fixedRecv : Bool) (h : Host) (hh : HostNamesOk h) (ha : HostArgsOk h) (fds : Fds) (m : Mem)
+theorem all_no_host_panic (fixedRecv fixedRead : Bool) (h : Host) (hh : HostNamesOk h) (ha : HostArgsOk h) (fds : Fds) (m : Mem)
     (hb : Bytes m) (hs : m.size < 9223372036854775808) (fn : String) (hfn : fn ∈ modelled) (a : List Nat)
-    (rs : List Res) (hc : call true fixedRecv h fds m fn a = some rs) : ∀ r ∈ rs, r.err ≠ Err.panic := by
+    (rs : List Res) (hc : call true fixedRecv fixedRead h fds m fn a = some rs) : ∀ r ∈ rs, r.err ≠ Err.panic := by
   unfold modelled at hfn
   rcases List.mem_append.1 hfn with h1 | h2
   · obtain ⟨f, rfl⟩ := modelled1_enumerated fn h1
-    obtain ⟨r, hr, rfl⟩ := call_fn1 true fixedRecv h fds m f a rs hc
+    obtain ⟨r, hr, rfl⟩ := call_fn1 true fixedRecv fixedRead h fds m f a rs hc
     intro r' hr'
     simp only [List.mem_cons, List.not_mem_nil, or_false] at hr'
     subst hr'
     exact call1e_no_host_panic h ha fds m f a _ hr
-  · exact wasi_no_host_panic true fixedRecv h hh fds m hb hs fn h2 a rs hc
+  · exact wasi_no_host_panic true fixedRecv fixedRead h hh fds m hb hs fn h2 a rs hc
 
 /-- **descriptor table, all 46 functions**: an alternative that does not answer errno 0 leaves the descriptor table
 as it was (no exception; proc_exit, which closes everything, answers `exit`, and its model leaves the table to the
 engine). -/
-theorem all_failed_call_keeps_table (fixed fixedRecv : Bool) (h : Host) (hh : HostNamesOk h) (fds : Fds) (m : Mem)
+theorem all_failed_call_keeps_table (fixed fixedRecv fixedRead : Bool) (h : Host) (hh : HostNamesOk h) (fds : Fds) (m : Mem)
     (hb : Bytes m) (hs : m.size < 9223372036854775808) (fn : String) (hfn : fn ∈ modelled) (a : List Nat)
-    (rs : List Res) (hc : call fixed fixedRecv h fds m fn a = some rs) :
+    (rs : List Res) (hc : call fixed fixedRecv fixedRead h fds m fn a = some rs) :
     ∀ r ∈ rs, r.err ≠ Err.errno 0 → r.fds = none := by
   unfold modelled at hfn
   rcases List.mem_append.1 hfn with h1 | h2
   · obtain ⟨f, rfl⟩ := modelled1_enumerated fn h1
-    obtain ⟨r, hr, rfl⟩ := call_fn1 fixed fixedRecv h fds m f a rs hc
+    obtain ⟨r, hr, rfl⟩ := call_fn1 fixed fixedRecv fixedRead h fds m f a rs hc
     intro r' hr'
     simp only [List.mem_cons, List.not_mem_nil, or_false] at hr'
     subst hr'
-    exact call1e_table fixed h fds m f a _ hr
-  · exact wasi_failed_call_keeps_table fixed fixedRecv h hh fds m hb hs fn h2 a rs hc
+    exact call1e_table fixed fixedRead h fds m f a _ hr
+  · exact wasi_failed_call_keeps_table fixed fixedRecv fixedRead h hh fds m hb hs fn h2 a rs hc
 
 /-- **host allocation, 45 functions**: the allocation the model predicts is at most 512 bytes — a constant, a
 fortiori linear in the guest memory size.  fd_renumber is the exception (F16, `renumber_alloc_witness`). -/
-theorem all_alloc_bounded (fixed fixedRecv : Bool) (h : Host) (hh : HostNamesOk h) (fds : Fds) (m : Mem)
+theorem all_alloc_bounded (fixed fixedRecv fixedRead : Bool) (h : Host) (hh : HostNamesOk h) (fds : Fds) (m : Mem)
     (hb : Bytes m) (hs : m.size < 9223372036854775808) (fn : String) (hfn : fn ∈ modelled) (hne : fn ≠ "fd_renumber")
-    (a : List Nat) (rs : List Res) (hc : call fixed fixedRecv h fds m fn a = some rs) :
+    (a : List Nat) (rs : List Res) (hc : call fixed fixedRecv fixedRead h fds m fn a = some rs) :
     ∀ r ∈ rs, r.alloc ≤ 512 + 0 * m.size := by
   unfold modelled at hfn
   rcases List.mem_append.1 hfn with h1 | h2
   · obtain ⟨f, rfl⟩ := modelled1_enumerated fn h1
-    obtain ⟨r, hr, rfl⟩ := call_fn1 fixed fixedRecv h fds m f a rs hc
+    obtain ⟨r, hr, rfl⟩ := call_fn1 fixed fixedRecv fixedRead h fds m f a rs hc
     intro r' hr'
     simp only [List.mem_cons, List.not_mem_nil, or_false] at hr'
     subst hr'
@@ -563,9 +588,9 @@ theorem all_alloc_bounded (fixed fixedRecv : Bool) (h : Host) (hh : HostNamesOk 
       intro hf
       subst hf
       exact hne rfl
-    rw [call1e_alloc fixed h fds m f hf a _ hr]
+    rw [call1e_alloc fixed fixedRead h fds m f hf a _ hr]
     omega
-  · exact wasi_alloc_bounded fixed fixedRecv h hh fds m hb hs fn h2 a rs hc
+  · exact wasi_alloc_bounded fixed fixedRecv fixedRead h hh fds m hb hs fn h2 a rs hc
 
 /-- one constructor of `Fn1`, for the two statements about where a call writes -/
 macro "fs1_wcase" hc:ident t:term : tactic =>
@@ -582,10 +607,10 @@ theorem designated_by_name1 (h : Host) (m : Mem) (f : Fn1) (a : List Nat) :
 Left out: poll_oneoff (writeEvent offsets), fd_read / fd_pread (the iovec entries are read from the live memory
 while earlier buffers are being filled: a buffer that covers a later entry changes where the next write goes, so
 "the regions named by the iovec array at call time" is not what the code honours — see docs). -/
-theorem call1e_writes (fixed : Bool) (h : Host) (ha : HostArgsOk h) (fds : Fds) (m : Mem)
+theorem call1e_writes (fixed fixedRead : Bool) (h : Host) (ha : HostArgsOk h) (fds : Fds) (m : Mem)
     (hs : m.size < 9223372036854775808) (f : Fn1)
     (hf : f ≠ Fn1.poll_oneoff ∧ f ≠ Fn1.fd_read ∧ f ≠ Fn1.fd_pread) (a : List Nat) (r : Res)
-    (hc : call1e fixed h fds m f a = some r) : Wr1 m (designated1e h m f (a.map w32)) r := by
+    (hc : call1e fixed fixedRead h fds m f a = some r) : Wr1 m (designated1e h m f (a.map w32)) r := by
   cases f
   case poll_oneoff => exact absurd rfl hf.1
   case fd_read => exact absurd rfl hf.2.1
@@ -616,23 +641,23 @@ every write of every alternative lies inside the memory AND inside the regions `
 theorem all_writes_in_memory_and_designated (fixed : Bool) (h : Host) (hh : HostNamesOk h) (ha : HostArgsOk h)
     (fds : Fds) (m : Mem) (hb : Bytes m) (hm : m.size ≤ 4294967296) (fn : String) (hfn : fn ∈ modelled)
     (hne : fn ≠ "poll_oneoff" ∧ fn ≠ "fd_read" ∧ fn ≠ "fd_pread") (a : List Nat) (rs : List Res)
-    (hc : call fixed true h fds m fn a = some rs) :
+    (hc : call fixed true true h fds m fn a = some rs) :
     ∀ r ∈ rs, ∀ w ∈ r.writes, (w.len = 0 ∨ w.off + w.len ≤ m.size) ∧ Wr.within w (designated h m fn (a.map w32)) := by
   have hs : m.size < 9223372036854775808 := by omega
   unfold modelled at hfn
   rcases List.mem_append.1 hfn with h1 | h2
   · obtain ⟨f, rfl⟩ := modelled1_enumerated fn h1
-    obtain ⟨r, hr, rfl⟩ := call_fn1 fixed true h fds m f a rs hc
+    obtain ⟨r, hr, rfl⟩ := call_fn1 fixed true true h fds m f a rs hc
     have hf : f ≠ Fn1.poll_oneoff ∧ f ≠ Fn1.fd_read ∧ f ≠ Fn1.fd_pread := by
       refine ⟨?_, ?_, ?_⟩ <;> (intro hf; subst hf; simp [Fn1.name] at hne)
-    have := call1e_writes fixed h ha fds m hs f hf a r hr
+    have := call1e_writes fixed true h ha fds m hs f hf a r hr
     intro r' hr' w hw
     simp only [List.mem_cons, List.not_mem_nil, or_false] at hr'
     subst hr'
     rw [designated_by_name1]
     exact ⟨this.1 w hw, this.2 w hw⟩
   · intro r hr w hw
-    exact ⟨wasi_writes_in_memory fixed true h hh fds m hb hs fn h2 a rs hc r hr w hw,
+    exact ⟨wasi_writes_in_memory fixed true true h hh fds m hb hs fn h2 a rs hc r hr w hw,
       wasi_writes_within_designated_by_name fixed h hh fds m hm fn h2 a rs hc r hr w hw⟩
 
 example : modelled.length = 46 ∧ modelled.Nodup := by decide
